@@ -94,6 +94,11 @@ CHECKS = {
     text="A known phasing with disjoint phase sets tags error-free reads (haplotag, in-process); a random subset of variants keeps its phase in the VCF given to haplotagphase (defaults, reference); every call phased in the output must have the haplotype order and phase set of the tagging phasing, and calls phased in the input must come out byte-identical in GT/PS. Partial tagging (only the first set's reads keep their tags) exercises the vote-less path.",
     note="Trusted: C10's helpers (phased VCF writer, read renderer); the proviso that no read overlaps two phase sets is enforced by construction.",
     ref="DESIGN.md section 4, C17"),
+ "C15": dict(
+    technique="property-based testing (Hypothesis) of `whatshap polyphase`; validity oracle on the output (genotype multisets, passthrough diff, contiguous and correctly named blocks)",
+    text="Polyploid cases (ploidy 2-6, tri-allelic sites, collapsed haplotypes, uneven depth, noisy reads, -B 0..5, --use-prephasing) are phased in-process; each phased genotype must be a permutation of the input genotype, only heterozygous calls may be phased, the rest of the VCF must be unchanged, and per sample the PS labels must form contiguous runs named by a read-covered heterozygous variant between the previous block and the block's first phased variant.",
+    note="Validity of a heuristic's output only; read coverage is recomputed from the generator's read geometry with the tool's own filter (>= 2 fully covered heterozygous variants).",
+    ref="DESIGN.md section 4, C15"),
 }
 
 NOT_YET = {}
